@@ -123,9 +123,6 @@ Proof.
   destruct i as [|i]; cbn [zseq nth]; [lia|]. rewrite IH by lia. lia.
 Qed.
 
-Lemma label_eq_dec (a b : label) : {a = b} + {a <> b}.
-Proof. decide equality. Qed.
-
 (** *** the store invariant *)
 Definition mid_write (p : pc) : bool :=
   match p with PCs 2%nat | PCs 3%nat => true | _ => false end.
@@ -168,14 +165,14 @@ Qed.
 (** steps other than handler steps: only the pc of the stepping thread changes, between
     classes that are irrelevant for the store *)
 Lemma other_step_shape q s t l s' :
-  l <> LCs -> step q cfg s t l = Some s' ->
+  l <> LCs -> l <> LRegrant -> step q cfg s t l = Some s' ->
   objs s' = objs s /\ ver s' = ver s /\ log s' = log s /\ reg s' = reg s /\
   exists p', pcs s' = upd (pcs s) t p' /\
     (forall k, p' <> PCs (S k)) /\ (forall k, pcs s t <> PCs (S k)) /\
     (forall r, fin_result (pcs s t) = Some r -> fin_result p' = Some r) /\
     (forall r, fin_result p' = Some r -> is_mut (t_req (cfg t)) = true -> fin_result (pcs s t) = Some r).
 Proof.
-  intros Hl H. unfold step in H.
+  intros Hl Hr H. unfold step in H.
   destruct l; try congruence; destruct (pcs s t) eqn:Ep; try discriminate;
   repeat match type of H with
   | (if ?c then _ else _) = _ => destruct c eqn:?; try discriminate
@@ -200,8 +197,10 @@ Lemma invS_other s t l s' :
   l <> LCs -> InvS s -> step ideal cfg s t l = Some s' -> InvS s'.
 Proof.
   intros Hl J H.
+  destruct (label_eq_dec l LRegrant) as [->|Hnr].
+  { rewrite step_regrant_ideal in H. inversion H; subst; assumption. }
   pose proof (inv_step cfg _ _ _ _ (j_inv _ J) H) as I'.
-  destruct (other_step_shape _ _ _ _ _ Hl H) as (Eo & Ev & Elog & Ereg & p' & Epc & Hp & Ho & Hf1 & Hf2).
+  destruct (other_step_shape _ _ _ _ _ Hl Hnr H) as (Eo & Ev & Elog & Ereg & p' & Epc & Hp & Ho & Hf1 & Hf2).
   assert (Eb : base s' = base s) by (unfold base; rewrite Elog; reflexivity).
   assert (Hpc : forall t' k, pcs s' t' = PCs (S k) -> t' <> t /\ pcs s t' = PCs (S k)).
   { intros t' k E. rewrite Epc in E. unfold upd in E.
